@@ -19,6 +19,8 @@
  *
  * Script commands (one per line, decimal integers):
  *   blobfile <path>                       input bytes; everything else addresses it by (offset, length)
+ *   arena <n>                             size the src/dst arenas once (so that later frames can be placed
+ *                                         contiguously after earlier ones: <sa> is an absolute arena offset)
  *   seed <n>                              PRNG for garbage fill / jitter
  *   ctx <c> heap|heapz|static <size>      create (heap: allocator returns garbage-filled memory; heapz: zeroed)
  *   free <c>
@@ -44,7 +46,7 @@
  *                                         right after Begin into context <copyTo>, which then does the work)
  *       blcdict <chunk> <d>               ZSTD_compressBegin_usingCDict / Continue / End
  *   A <c> <off> <len> <flush>             abandoned frame: stream <len> bytes (then flush if 1), never end
- * Output: "F fid rc size hash rt [hex]"  (rc 0 ok, else "E <errorname>"), D / J lines, "E ..." for API errors.
+ * Output: "F fid rc size hash rt nerr sc [hex]"  (sc: 1 = e_end shortcut taken, -1 = buffered path, -2 = not a streaming frame)  (rc 0 ok, else "E <errorname>"), D / J lines, "E ..." for API errors.
  */
 #define ZSTD_DEPS_NEED_MALLOC
 #include "compress/zstd_compress.c"
@@ -130,7 +132,7 @@ static void need_arena(size_t n) {
     size_t const want = ((ZSTD_compressBound(n) + 2 * 4096 + 65536) | 4095) + 1;
     if (want <= arenaCap) return;
     if (srcArena) { munmap(srcArena, arenaCap); munmap(dstArena, arenaCap); munmap(rtBuf, arenaCap); munmap(pieceBuf, arenaCap); }
-    arenaCap = want * 2;
+    arenaCap = want;
     srcArena = (BYTE*)page_alloc(arenaCap); dstArena = (BYTE*)page_alloc(arenaCap);
     rtBuf = (BYTE*)page_alloc(arenaCap); pieceBuf = (BYTE*)page_alloc(arenaCap);
 }
@@ -168,7 +170,9 @@ static void dump(int ci, const char* why) {
         int const chain = ZSTD_allocateChainTable(ap->cParams.strategy, ap->useRowMatchFinder, 0);
         int const row = ZSTD_rowMatchFinderUsed(ap->cParams.strategy, ap->useRowMatchFinder);
         if (ap->nbWorkers == 0 || 1) count_tables(c, &tb, &reach, &nz);
-        need = ZSTD_estimateCCtxSize_usingCCtxParams_internal(&ap->cParams, &ap->ldmParams, c->staticSize != 0, ap->useRowMatchFinder,
+        need = 0;
+        if (ap->nbWorkers == 0 && (ap->ldmParams.enableLdm != ZSTD_ps_enable || ap->ldmParams.minMatchLength != 0))
+            need = ZSTD_estimateCCtxSize_usingCCtxParams_internal(&ap->cParams, &ap->ldmParams, c->staticSize != 0, ap->useRowMatchFinder,
                     c->inBuffSize, c->outBuffSize, pledged, ZSTD_hasExtSeqProd(ap), ap->maxBlockSize);
         printf(" idx=%lld ll=%u dl=%u ntu=%u lde=%u dms=%d salt=%llu ent=%u lls=%u",
                (long long)(ms->window.nextSrc - ms->window.base), ms->window.lowLimit, ms->window.dictLimit, ms->nextToUpdate,
@@ -194,7 +198,8 @@ static void dump(int ci, const char* why) {
     printf("\n");
 }
 
-static void perr(const char* what, size_t r) { printf("E %s %s\n", what, ZSTD_getErrorName(r)); }
+static int g_nerr;   /* API errors (set / load / reset ...) since the last F line */
+static void perr(const char* what, size_t r) { g_nerr++; printf("E %s %s\n", what, ZSTD_getErrorName(r)); }
 
 /* ---------------- round trip through libzstd ---------------- */
 static int decode_ok(const BYTE* cs, size_t csize, const BYTE* src, size_t size) {
@@ -208,9 +213,20 @@ static int decode_ok(const BYTE* cs, size_t csize, const BYTE* src, size_t size)
     return r == size && (size == 0 || memcmp(rtBuf, src, size) == 0);
 }
 
+/* streaming only: did the last segment handed to the block compressor live in the caller's buffer (1) or in the
+ * context's own input buffer (-1)?  1 <=> the ZSTD_e_end shortcut of ZSTD_compressStream_generic ran ZSTD_compressEnd
+ * on the caller's bytes (it ends the frame, so it happens at most once and last). */
+static long long g_sc = -2;
+static void note_shortcut(int ci, size_t len) {
+    const ZSTD_CCtx* const c = C[ci]; const ZSTD_window_t* const w = &c->blockState.matchState.window;
+    g_sc = -1;
+    if (c->appliedParams.nbWorkers > 0 || !c->initialized || len == 0) return;
+    if (w->nextSrc != NULL && !ZSTD_cwksp_owns_buffer(&c->workspace, w->nextSrc - 1)) g_sc = 1;
+}
 static void report(int fid, size_t r, const BYTE* dst, const BYTE* src, size_t len, int hex) {
-    if (ZSTD_isError(r)) { printf("F %d E %s\n", fid, ZSTD_getErrorName(r)); return; }
-    printf("F %d 0 %zu %016llx %d", fid, r, (ull)XXH64(dst, r, 0), decode_ok(dst, r, src, len));
+    if (ZSTD_isError(r)) { printf("F %d E %s %d\n", fid, ZSTD_getErrorName(r), g_nerr); g_nerr = 0; g_sc = -2; return; }
+    printf("F %d 0 %zu %016llx %d %d %lld", fid, r, (ull)XXH64(dst, r, 0), decode_ok(dst, r, src, len), g_nerr, g_sc);
+    g_nerr = 0; g_sc = -2;
     if (hex) { size_t i; printf(" "); for (i = 0; i < r; i++) printf("%02x", dst[i]); }
     printf("\n");
 }
@@ -262,6 +278,7 @@ static size_t do_stream(int ci, const BYTE* src, size_t len, BYTE* dst, size_t d
             if (opos == dstCap && out.pos == 0 && cap == 0) return ERROR(dstSize_tooSmall);
         }
         ipos += sz;
+        if (p == nP || p == nP - 1 || dir == ZSTD_e_end) note_shortcut(ci, len);
     }
     return opos;
 }
@@ -282,6 +299,7 @@ int main(void) {
             blob = (BYTE*)malloc((size_t)n + 64); blobSize = (size_t)n;
             if (fread(blob, 1, blobSize, f) != blobSize) return 2;
             fclose(f);
+        } else if (!strcmp(cmd, "arena")) { size_t n; if (fscanf(in, "%zu", &n) != 1) return 2; need_arena(n);
         } else if (!strcmp(cmd, "seed")) { ull s; if (fscanf(in, "%llu", &s) != 1) return 2; g_seed = s; g_ctr = 0;
         } else if (!strcmp(cmd, "jitter")) { if (fscanf(in, "%d", &g_jitter) != 1) return 2;
         } else if (!strcmp(cmd, "mtfail")) { if (fscanf(in, "%d", &g_mtfail) != 1) return 2;
@@ -351,7 +369,7 @@ int main(void) {
         } else if (!strcmp(cmd, "F")) {
             int c, fid, hex; size_t off, len, sa, da, r = 0; char api[32]; BYTE *src, *dst; size_t dstCap;
             if (fscanf(in, "%d %d %zu %zu %zu %zu %d %31s", &c, &fid, &off, &len, &sa, &da, &hex, api) != 8) return 2;
-            need_arena(len);
+            need_arena(len + sa + da);
             src = srcArena + sa; dst = dstArena + da; dstCap = arenaCap - da;
             memcpy(src, blob + off, len);
             if (!strcmp(api, "c2")) {
